@@ -796,6 +796,9 @@ func (s *vSession) resolver(mode string) *Resolver {
 	}
 }
 
+// vFaultEvery: the fault scenarios run on every n-th edit (quick: 5, thorough and replay: 1)
+var vFaultEvery = uint64(1)
+
 var (
 	vScratch   string
 	vTimeout   = 5 * time.Second
@@ -1552,6 +1555,9 @@ func runCase(c *VCase) *caseOut {
 	g := refGraphOf(&c.U, extraReqs)
 	o.line = "seq " + encUniverse(&c.U, 0, tags, extraNodes, refs) + " " + encReqs(c.Root) + " " + strings.Join(c.Ops, ";")
 
+	if c.Prop == "C11" {
+		judgeUpgradePrevious(o, c, s)
+	}
 	cur := c.Root
 	var answers []string
 	for step, op := range c.Ops {
@@ -1822,6 +1828,20 @@ func judgeEdit(o *caseOut, c *VCase, s *vSession, g *refGraph, root map[string]V
 			}
 		}
 		ans += "|" + branch + "|" + encMod(resolved) + "|" + landed + "|" + stable
+		// whatever the query kind, the version it resolves to is a version of the project that was asked for
+		if want := refCleanPath(queryPathOf(op)); resolved.Path != want {
+			o.violation(c, "get-resolved-other-project", fmt.Sprintf("%s on %s resolved %s, a version of another project than %s",
+				op, encReqs(root), encMod(resolved), want), step, "")
+		}
+		if queryKind(op[4:]) == "patch" && okB {
+			if cur, has := before[resolved.Path]; has {
+				pc, ok1 := refParse(cur)
+				pr, ok2 := refParse(resolved.Version)
+				if ok1 && ok2 && (pc.maj != pr.maj || pc.min != pr.min || refCmp(resolved.Version, cur) < 0) {
+					o.violation(c, "get-patch-left-its-line", fmt.Sprintf("%s with %s selected resolved %s", op, cur, resolved.Version), step, "")
+				}
+			}
+		}
 		o.stat("get-branch:" + branch)
 		o.stat("get-query:" + queryKind(op[4:]))
 	} else if isGet {
@@ -2006,8 +2026,16 @@ func judgeFaults(o *caseOut, c *VCase, g *refGraph, root map[string]VMod, op str
 		h = h*1099511628211 + uint64(ch)
 	}
 	pick := &vRng{h}
+	rounds := 2
+	if vFaultEvery > 1 {
+		if pick.next()%vFaultEvery != 0 {
+			o.stat("fault-skipped-in-quick")
+			return
+		}
+		rounds = 1
+	}
 	faults := []string{"dial-once", "list-once", "fetch-once", "dial-down", "list-down", "fetch-down"}
-	for round := 0; round < 2; round++ {
+	for round := 0; round < rounds; round++ {
 		fault := faults[pick.below(len(faults))]
 		warm := pick.chance(1, 2)
 		fs := newSession(c, 0)
@@ -2081,6 +2109,76 @@ func judgeFaults(o *caseOut, c *VCase, g *refGraph, root map[string]VMod, op str
 			}
 		}
 		fs.close()
+	}
+}
+
+// Reqs.Upgrade and Reqs.Previous on every tagged version of every project, against what is certain of them whatever
+// the policy on prereleases: the answer is a version of the same project and of the same major version line (v0.x and
+// v1.x share a path but are different lines), it is the version itself or one of the project's canonical tags, Upgrade
+// never goes down and Previous goes strictly down or answers "none"
+func judgeUpgradePrevious(o *caseOut, c *VCase, s *vSession) {
+	reqs := newReqs(&mvsProject{Version: module.Version{}}, s.resolver("mem"))
+	tagsOf := map[string]map[string]bool{}
+	for i := range c.U.Nodes {
+		n := &c.U.Nodes[i]
+		p := c.U.nodePath(n)
+		if tagsOf[p] == nil {
+			tagsOf[p] = map[string]bool{}
+		}
+		tagsOf[p][n.Version] = true
+	}
+	ctx := context.Background()
+	for i := range c.U.Nodes {
+		n := &c.U.Nodes[i]
+		m := module.Version{Path: c.U.nodePath(n), Version: n.Version}
+		type res struct {
+			up, prev module.Version
+			e1, e2   error
+		}
+		ch := make(chan res, 1)
+		go func() {
+			defer func() {
+				if r := recover(); r != nil {
+					ch <- res{e1: fmt.Errorf("panic: %v", r)}
+				}
+			}()
+			var r res
+			r.up, r.e1 = reqs.Upgrade(ctx, m)
+			r.prev, r.e2 = reqs.Previous(ctx, m)
+			ch <- r
+		}()
+		var r res
+		select {
+		case r = <-ch:
+		case <-time.After(vTimeout):
+			o.violation(c, "upgrade-previous-hang", encMod(VMod{m.Path, m.Version}), 0, "")
+			return
+		}
+		o.stat("upgrade-previous-judged")
+		if r.e1 != nil || r.e2 != nil {
+			o.violation(c, "upgrade-previous-error", fmt.Sprintf("%s: %v %v", encMod(VMod{m.Path, m.Version}), r.e1, r.e2), 0, "")
+			continue
+		}
+		bad := ""
+		switch {
+		case r.up.Path != m.Path || r.prev.Path != m.Path:
+			bad = "another project"
+		case r.up.Version != m.Version && !tagsOf[m.Path][r.up.Version]:
+			bad = "Upgrade answered a version that is not a canonical tag of the project"
+		case refMajor(r.up.Version) != refMajor(m.Version):
+			bad = "Upgrade left the major version line"
+		case refCmp(r.up.Version, m.Version) < 0:
+			bad = "Upgrade went down"
+		case r.prev.Version != "none" && !tagsOf[m.Path][r.prev.Version]:
+			bad = "Previous answered a version that is not a canonical tag of the project"
+		case r.prev.Version != "none" && refMajor(r.prev.Version) != refMajor(m.Version):
+			bad = "Previous left the major version line"
+		case r.prev.Version != "none" && refCmp(r.prev.Version, m.Version) >= 0:
+			bad = "Previous did not go down"
+		}
+		if bad != "" {
+			o.violation(c, "upgrade-previous-wrong", fmt.Sprintf("%s: %s — Upgrade %s, Previous %s", bad, encMod(VMod{m.Path, m.Version}), r.up.Version, r.prev.Version), 0, "")
+		}
 	}
 }
 
@@ -2237,6 +2335,24 @@ func directedCases(prop string) []*VCase {
 		out = append(out, &VCase{Prop: prop, Cache: "cold", U: VUniverse{Repo: repo, DefaultRef: "main", Refs: map[string]int{"main": 4},
 			Nodes: []VNode{{Base: "p1", Version: "v1.1.0"}, {Base: "p1", Version: "v1.2.0"}, {Base: "p0", Version: "v1.1.0", Reqs: []VMod{{P("p1"), "v1.2.0"}}}, {Base: "p0", Version: "v1.2.0"}}},
 			Root: map[string]VMod{"n0": {P("p0"), "v1.2.0"}, "n1": {P("p1"), "v1.1.0"}}, Ops: []string{"get:" + P("p0") + "@v1.1.0"}})
+		// two NEW requirements with the same configured name in ONE operation: a v1.0.0 requires x and y (both named
+		// "lib"), a v1.1.0 requires nothing — upgrade-all keeps x and y (required by the old a) and must name them apart
+		out = append(out, &VCase{Prop: prop, Cache: "cold", U: VUniverse{Repo: repo, DefaultRef: "main", Refs: map[string]int{"main": 4},
+			Nodes: []VNode{{Base: "x", Version: "v1.0.0", Name: "lib"}, {Base: "y", Version: "v1.0.0", Name: "lib"},
+				{Base: "a", Version: "v1.0.0", Reqs: []VMod{{P("x"), "v1.0.0"}, {P("y"), "v1.0.0"}}}, {Base: "a", Version: "v1.1.0"}}},
+			Root: map[string]VMod{"a": {P("a"), "v1.0.0"}}, Ops: []string{"upall", "tidy"}})
+		// patch query in a repository where a sibling project has a higher patch of the same major.minor
+		out = append(out, &VCase{Prop: prop, Cache: "disk", U: VUniverse{Repo: repo, DefaultRef: "main", Refs: map[string]int{"main": 4},
+			Nodes: []VNode{{Base: "d", Version: "v1.2.0"}, {Base: "d", Version: "v1.2.1"}, {Base: "e", Version: "v1.2.5"}, {Base: "e", Version: "v1.2.0"}}},
+			Root: map[string]VMod{"d": {P("d"), "v1.2.0"}}, Ops: []string{"get:" + P("d") + "@patch", "get:" + P("e") + "@patch", "get:" + P("d") + "@patch"}})
+		// one path, two major version lines (v0.x and v1.x have no path suffix): upgrade-all from v0.x stays in v0, and a
+		// downgrade that has to leave p's oldest v1 drops p rather than stepping into v0
+		v01 := VUniverse{Repo: repo, DefaultRef: "main", Refs: map[string]int{"main": 6},
+			Nodes: []VNode{{Base: "b", Version: "v1.1.0"}, {Base: "b", Version: "v1.2.0"}, {Base: "p", Version: "v0.8.0"}, {Base: "p", Version: "v0.9.0"},
+				{Base: "p", Version: "v1.0.0", Reqs: []VMod{{P("b"), "v1.2.0"}}}, {Base: "p", Version: "v1.1.0", Reqs: []VMod{{P("b"), "v1.2.0"}}}}}
+		out = append(out, &VCase{Prop: prop, Cache: "cold", U: v01, Root: map[string]VMod{"p": {P("p"), "v0.8.0"}}, Ops: []string{"upall", "upall"}})
+		out = append(out, &VCase{Prop: prop, Cache: "cold", U: v01, Root: map[string]VMod{"p": {P("p"), "v1.0.0"}, "b": {P("b"), "v1.2.0"}},
+			Ops: []string{"get:" + P("b") + "@v1.1.0", "bl"}})
 		// new names: the natural name is taken twice
 		out = append(out, &VCase{Prop: prop, Cache: "disk", U: VUniverse{Repo: repo, DefaultRef: "main", Refs: map[string]int{"main": 3},
 			Nodes: []VNode{{Base: "a", Version: "v1.0.0"}, {Base: "b", Version: "v1.0.0", Name: "lib"}, {Base: "c", Version: "v2.0.0", Name: "lib"}}},
@@ -2348,6 +2464,9 @@ func VerifMain(args []string) int {
 		return 0
 	}
 
+	if *tier == "quick" {
+		vFaultEvery = 5
+	}
 	if *budget == 0 {
 		*budget = 25 * time.Second
 		if *tier == "thorough" {
